@@ -15,6 +15,8 @@ import re
 from .facts import split_top, is_tracing, strip_generics
 
 STAR = '*'
+SELFREF = ('selfref',)     # the struct owning the tracked cells, reached directly (self / Pin<&mut Self> / &mut Self)
+SELFPROJ = ('selfproj',)   # its pin-project projection
 DISCR = {'Pending': 1, 'Ready': 0, 'None': 0, 'Some': 1, 'Ok': 0, 'Err': 1, 'Continue': 0, 'Break': 1}
 CMP_OPS = ('Lt', 'Le', 'Gt', 'Ge', 'Eq', 'Ne')
 
@@ -32,6 +34,8 @@ class Explorer:
         self.chain = list(chain)
         self.cell_accessors = cell_accessors or {}     # fn id -> cell name
         self.cmp_sites = cmp_sites or {}               # (fn id, bb, stmt idx) -> fact name
+        self.cell_names = set((cell_accessors or {}).values())
+        self._proj_depth = 0
         self.kill_facts = kill_facts or (lambda ev, shape: ())
         self.sticky = set(sticky)
         self._closure_cache = {}
@@ -207,6 +211,22 @@ class Explorer:
             if isinstance(v, tuple) and v and v[0] == 'cellref' and e[0] == 'd':
                 v = cells.get(v[1], STAR)
                 continue
+            if v == SELFREF:
+                # the struct that owns the tracked cells (reached directly, not through an accessor): derefs stay on it, a cell field reads the cell
+                if e[0] in ('d', 'dc'):
+                    continue
+                if e[0] == 'f' and len(e) > 2 and str(e[2]) in self.cell_names:
+                    v = cells.get(str(e[2]), STAR) if self._proj_depth == 0 else ('cellref', str(e[2]))
+                    continue
+                return STAR
+            if v == SELFPROJ:
+                # pin-project's projection struct: its fields are references to the fields
+                if e[0] in ('d', 'dc'):
+                    continue
+                if e[0] == 'f' and len(e) > 2 and str(e[2]) in self.cell_names:
+                    v = ('cellref', str(e[2]))
+                    continue
+                return STAR
             if v == STAR:
                 return STAR
             if e[0] in ('d', 'dc'):
@@ -244,6 +264,15 @@ class Explorer:
                 loc[pl['l']] = val
             return
         base = loc.get(pl['l'], STAR)
+        if base in (SELFREF, SELFPROJ):
+            fs = [e for e in pl['p'] if e[0] == 'f']
+            if len(fs) == 1 and len(fs[0]) > 2 and str(fs[0][2]) in self.cell_names and pl['p'][-1] == fs[0] or (base == SELFPROJ and len(fs) == 1 and len(fs[0]) > 2 and str(fs[0][2]) in self.cell_names):
+                name = str(fs[0][2])
+                if val == STAR:
+                    cells.pop(name, None)
+                else:
+                    cells[name] = val
+            return
         if isinstance(base, tuple) and base and base[0] == 'ref' and pl['p'][0][0] == 'd':
             r = json.loads(base[1])
             self.set_place(loc, cells, {'l': r['l'], 'p': r['p'] + pl['p'][1:]}, val)
@@ -598,6 +627,12 @@ class Explorer:
                 base = loc.get(rv['pl']['l'], STAR)
                 if isinstance(base, tuple) and base and base[0] == 'cellref' and all(e[0] == 'd' for e in rv['pl']['p']):
                     val = base
+                elif base in (SELFREF, SELFPROJ) and all(e[0] in ('d', 'dc') for e in rv['pl']['p']):
+                    val = base
+                elif base in (SELFREF, SELFPROJ) and [e for e in rv['pl']['p'] if e[0] == 'f'] and len([e for e in rv['pl']['p'] if e[0] == 'f']) == 1 \
+                        and str([e for e in rv['pl']['p'] if e[0] == 'f'][0][2] if len([e for e in rv['pl']['p'] if e[0] == 'f'][0]) > 2 else '') in self.cell_names \
+                        and rv['pl']['p'][-1][0] == 'f':
+                    val = ('cellref', str([e for e in rv['pl']['p'] if e[0] == 'f'][0][2]))
                 elif isinstance(base, tuple) and base and base[0] == 'ref' and rv['pl']['p'] and rv['pl']['p'][0][0] == 'd':
                     r = json.loads(base[1])
                     val = ('ref', json.dumps({'l': r['l'], 'p': r['p'] + rv['pl']['p'][1:]}, sort_keys=True))
@@ -691,17 +726,36 @@ class Explorer:
         if k == 'call':
             if t['target'] is None or f.blocks[t['target']]['cleanup']:
                 return
+            if not t.get('callee') and not is_tracing(t) and (t.get('func') or {}).get('k') in ('copy', 'move'):
+                # a call through a function pointer / function-typed value: which operation runs is not visible here.  If the value could be one of the
+                # transport, queue or table operations the automata count, every verdict built on this exploration would be unfounded
+                fty = f.local_ty(t['func']['pl']['l']) if not t['func']['pl']['p'] else '?'
+                if any(k_ in fty for k_ in ('Pin<', 'Context<', 'Poll<', 'Sink', 'Stream')):
+                    raise Budget('call through a function pointer of type %s at %s:%s (the operation performed is not resolved)' % (fty[:80], t.get('file'), t.get('line')))
             callee_f, nlevel = self.resolve(t, level)
             args = [self.ev_op(loc, cells, a) for a in t['args']]
             site = '%s:%s' % (t.get('file'), t.get('line'))
             dargs = tuple(self.deref(loc, cells, a) for a in args)
+            cn_ = strip_generics(t.get('callee') or '')
+            if dargs and dargs[0] in (SELFREF, SELFPROJ) and self.cell_names:
+                keep = None
+                if cn_.endswith(('Deref::deref', 'DerefMut::deref_mut', 'Pin::as_mut', 'Pin::as_ref', 'Pin::get_mut', 'Pin::get_ref', 'Pin::into_ref', 'Pin::get_unchecked_mut',
+                                 'Pin::new', 'Pin::new_unchecked', 'Pin::map_unchecked_mut', 'Pin::into_inner', 'borrow::BorrowMut::borrow_mut', 'borrow::Borrow::borrow')) and dargs[0] == SELFREF:
+                    keep = SELFREF
+                elif (cn_.endswith('::project') or cn_.endswith('::project_ref')) and dargs[0] == SELFREF:
+                    keep = SELFPROJ
+                if keep is not None:
+                    l2 = dict(loc)
+                    self.set_place(l2, cells, t['dest'], keep)
+                    yield (E, t['target'], l2, env, None)
+                    return
             if callee_f is not None and callee_f.id in self.cell_accessors:
                 l2 = dict(loc)
                 self.set_place(l2, cells, t['dest'], ('cellref', self.cell_accessors[callee_f.id]))
                 yield (E, t['target'], l2, env, None)
                 return
             if callee_f is not None and callee_f.id != f.id and not callee_f.coroutine:
-                cargs = tuple(STAR if (isinstance(a, tuple) and a and a[0] == 'ref') else a for a in args)
+                cargs = tuple(d_ if d_ == SELFREF else (STAR if (isinstance(a, tuple) and a and a[0] == 'ref') else a) for a, d_ in zip(args, dargs))
                 self.stats['calls'] += 1
                 bev = self.boundary(t, f, callee_f, level, nlevel) if self.boundary else None
                 for (ret, env2, labels) in self.summarize(callee_f, cargs, env, nlevel):
